@@ -4,6 +4,7 @@ C02 (composition) — the parser model of C01 run on what the writer model of C0
 import PistacheModel.Lemmas.ParserWrite
 import PistacheModel.Props.C01
 import PistacheModel.Lemmas.Net
+import PistacheModel.Lemmas.ChunkedWrite
 
 namespace Pistache.Parser.Props
 open Pistache Pistache.Stream Pistache.Parser Pistache.Num
@@ -153,6 +154,54 @@ theorem parse_general (k : Kind) (w : Bytes) (t1 : List Eff) (lines : List (Byte
     · subst hb
       rw [hinit]
       simp [bodyFeed, outcomeOf]
+  rw [hparse]
+  refine ⟨_, rfl, ?_⟩
+  simp only [msg_apps_append]
+
+/-- the most general form: whatever the framing, if the body reader started from what the header block
+    announces ends in `done` with `data` on the bytes that follow the blank line, the message is complete
+    and carries `data` -/
+theorem parse_general_body (k : Kind) (w : Bytes) (t1 : List Eff) (lines : List (Bytes × Bytes × List Eff)) (bodyBytes data : Bytes) (max : Nat)
+    (hfl : firstLine k w = (t1, .ok () ((lines.map fun (l : Bytes × Bytes × List Eff) => lineBytes l.1 l.2.1).flatten ++ Emit.crlf ++ bodyBytes)))
+    (hlines : ∀ l ∈ lines, LineOk l.1 l.2.1 ∧ headerEffects l.1 l.2.1 = .ok l.2.2)
+    (hbody : bodyFeed { mode := bodyInit (({} : Msg).apps (t1 ++ (lines.map (·.2.2)).flatten)) } bodyBytes = { mode := .done, body := data })
+    (hfit : w.length ≤ max) :
+    ∃ p', run (init k max) [w] = (p', .done) ∧ p'.msg = { (({} : Msg).apps (t1 ++ (lines.map (·.2.2)).flatten)) with body := data } := by
+  generalize ht2 : (lines.map (·.2.2)).flatten = t2 at hbody
+  have hhd : headers ((lines.map fun (l : Bytes × Bytes × List Eff) => lineBytes l.1 l.2.1).flatten ++ Emit.crlf ++ bodyBytes) = (t2, .ok () bodyBytes) := by
+    unfold headers
+    rw [← ht2]
+    apply headersLoop_write lines bodyBytes hlines
+    have : ∀ (ls : List (Bytes × Bytes × List Eff)), ls.length ≤ ((ls.map fun (l : Bytes × Bytes × List Eff) => lineBytes l.1 l.2.1).flatten).length := by
+      intro ls
+      induction ls with
+      | nil => simp
+      | cons l r ih =>
+        simp only [List.map_cons, List.flatten_cons, List.length_append, List.length_cons]
+        have : 1 ≤ (lineBytes l.1 l.2.1).length := by simp [lineBytes, Emit.crlf]; omega
+        omega
+    have := this lines
+    simp only [List.length_append]; omega
+  simp only [run]
+  have hfeed : feed (init k max) w = some (feedRaw (init k max) w) := feed_eq _ _ (by simpa [init] using hfit)
+  rw [hfeed]
+  simp only
+  have hparse : parse (feedRaw (init k max) w) =
+      ({ kind := k, max := max, total := w.length, unread := [], step := 2,
+         msg := { (({} : Msg).apps t1).apps t2 with body := data }, bst := some { mode := .done, body := data } }, .done) := by
+    unfold parse
+    simp only [feedRaw, init, List.nil_append, Nat.zero_add, if_true]
+    unfold runLine
+    simp only [hfl]
+    unfold stage1
+    simp only [Nat.zero_add, if_true]
+    unfold runLine
+    simp only [hhd]
+    unfold runBody
+    simp only
+    rw [← msg_apps_append] at *
+    rw [hbody]
+    simp [outcomeOf]
   rw [hparse]
   refine ⟨_, rfl, ?_⟩
   simp only [msg_apps_append]
@@ -680,6 +729,102 @@ theorem fixed_response_roundtrip (code : Nat) (lines : List (Bytes × Bytes × L
     · simp
   rw [hsl] at hfit ⊢
   obtain ⟨p', h1, h2⟩ := response_written code (Emit.reason code) (lines ++ [clLine]) body max hc hr hall hframe (by simpa [List.append_assoc] using hfit)
+  refine ⟨p', by simpa [List.append_assoc] using h1, ?_, ?_⟩
+  · rw [h2, apps_fields]
+    simp only [List.foldl_append, List.foldl_cons, List.foldl_nil, fCode]
+    have hinert : ∀ (t : List Eff), (∀ e ∈ t, IsHeaderEff e) → ∀ x : Int, t.foldl fCode x = x := by
+      intro t ht x
+      exact fold_header_inert fCode (by intro x e h; cases e <;> first | rfl | exact absurd h (by simp [IsHeaderEff])) t ht x
+    apply hinert
+    intro e he
+    simp only [List.mem_flatten, List.mem_map] at he
+    obtain ⟨t, ⟨l, hl, rfl⟩, het⟩ := he
+    exact headerEffects_kinds _ _ _ (hall l hl).2 e het
+  · rw [h2]
+
+/-! ### the server's streamed (chunked) writer read back by the client's parser -/
+
+def teLine : Bytes × Bytes × List Eff :=
+  (Pistache.bytes "Transfer-Encoding", Pistache.bytes "chunked",
+   [Eff.typedAdd "Transfer-Encoding" (Pistache.bytes "chunked"), Eff.rawAdd (Pistache.bytes "Transfer-Encoding") (Pistache.bytes "chunked")])
+
+theorem teLine_ok : LineOk teLine.1 teLine.2.1 ∧ headerEffects teLine.1 teLine.2.1 = .ok teLine.2.2 :=
+  ⟨⟨by decide, by decide, by decide, by decide, by decide⟩, by decide +kernel⟩
+
+/-- T8 (composition for `ResponseStream`): the streamed response the server writes — status line, the
+    handler's Set-Cookie and header lines (none of them a framing header), `Transfer-Encoding: chunked`,
+    blank line, one chunk per non-empty write, the last-chunk — is parsed to completion by the client's
+    parser; the parsed response carries exactly that code and, as its body, exactly the concatenation of
+    everything written. -/
+theorem stream_response_roundtrip (code : Nat) (lines : List (Bytes × Bytes × List Eff)) (chunks : List Bytes) (max : Nat)
+    (hc : code < 2147483648)
+    (hlines : ∀ l ∈ lines, LineOk l.1 l.2.1 ∧ headerEffects l.1 l.2.1 = .ok l.2.2 ∧ NoTyped "Content-Length" l.2.2 ∧ NoTyped "Transfer-Encoding" l.2.2)
+    (hsizes : ∀ c ∈ chunks, c.length ≤ Net.longMax)
+    (hfit : (Emit.statusLine false code ++ ((lines ++ [teLine]).map fun (l : Bytes × Bytes × List Eff) => lineBytes l.1 l.2.1).flatten ++ Emit.crlf
+        ++ ((chunks.map Emit.chunk).flatten ++ Emit.lastChunk)).length ≤ max) :
+    ∃ p', run (init .response max) [Emit.statusLine false code ++ ((lines ++ [teLine]).map fun (l : Bytes × Bytes × List Eff) => lineBytes l.1 l.2.1).flatten
+        ++ Emit.crlf ++ ((chunks.map Emit.chunk).flatten ++ Emit.lastChunk)] = (p', .done) ∧
+      p'.msg.code = code ∧ p'.msg.body = chunks.flatten := by
+  have hall : ∀ l ∈ lines ++ [teLine], LineOk l.1 l.2.1 ∧ headerEffects l.1 l.2.1 = .ok l.2.2 := by
+    intro l hl
+    simp only [List.mem_append, List.mem_singleton] at hl
+    rcases hl with hl | hl
+    · obtain ⟨a, b, _, _⟩ := hlines l hl; exact ⟨a, b⟩
+    · subst hl; exact teLine_ok
+  have hflat : ((lines ++ [teLine]).map (·.2.2)).flatten = (lines.map (·.2.2)).flatten ++ teLine.2.2 := by simp
+  have hnoCL : NoTyped "Content-Length" ([Eff.setCode code] ++ ((lines ++ [teLine]).map (·.2.2)).flatten) := by
+    rw [hflat]
+    apply noTyped_append
+    · intro e he v heq; subst heq; simp at he
+    apply noTyped_append
+    · intro e he v heq
+      simp only [List.mem_flatten, List.mem_map] at he
+      obtain ⟨t, ⟨l, hl, rfl⟩, het⟩ := he
+      exact (hlines l hl).2.2.1 e het v heq
+    · intro e he v heq; subst heq; simp [teLine] at he
+  have hpreTE : NoTyped "Transfer-Encoding" ([Eff.setCode code] ++ (lines.map (·.2.2)).flatten) := by
+    apply noTyped_append
+    · intro e he v heq; subst heq; simp at he
+    · intro e he v heq
+      simp only [List.mem_flatten, List.mem_map] at he
+      obtain ⟨t, ⟨l, hl, rfl⟩, het⟩ := he
+      exact (hlines l hl).2.2.2 e het v heq
+  -- the header block announces chunked framing
+  have hinit : bodyInit (({} : Msg).apps ([Eff.setCode code] ++ ((lines ++ [teLine]).map (·.2.2)).flatten)) = .chSize [] := by
+    have hcl : typedOf (({} : Msg).apps ([Eff.setCode code] ++ ((lines ++ [teLine]).map (·.2.2)).flatten)).typed "Content-Length" = none := by
+      rw [typed_apps]; exact typedOf_fold_none _ _ _ rfl hnoCL
+    have hte : typedOf (({} : Msg).apps ([Eff.setCode code] ++ ((lines ++ [teLine]).map (·.2.2)).flatten)).typed "Transfer-Encoding"
+        = some (Pistache.bytes "chunked") := by
+      rw [typed_apps, hflat, ← List.append_assoc, List.foldl_append]
+      have h0 := typedOf_fold_none _ [] "Transfer-Encoding" rfl hpreTE
+      simp only [teLine, List.foldl_cons, List.foldl_nil, fTyped]
+      exact typedOf_kfInsert_new _ _ _ h0
+    have henc : Headers.parseEncoding (Pistache.bytes "chunked") = "Chunked" := by decide +kernel
+    simp only [bodyInit, hcl, hte, henc, if_true]
+  have hbody : bodyFeed { mode := bodyInit (({} : Msg).apps ([Eff.setCode code] ++ ((lines ++ [teLine]).map (·.2.2)).flatten)) }
+      ((chunks.map Emit.chunk).flatten ++ Emit.lastChunk) = { mode := .done, body := chunks.flatten } := by
+    rw [hinit]
+    have := chunked_feed chunks [] hsizes
+    simpa using this
+  have hsl : Emit.statusLine false code = Pistache.bytes "HTTP/1.1 " ++ natToDec code ++ [32] ++ Emit.reason code ++ Emit.crlf := by
+    simp [Emit.statusLine]
+  have hr : 13 ∉ Emit.reason code := by
+    have hall' : (Gen.statusCodes.all fun p => !(Pistache.bytes p.2.2).contains 13) = true := by decide +kernel
+    unfold Emit.reason
+    split
+    · rename_i p hp'
+      have := List.all_eq_true.mp hall' p (List.mem_of_find?_eq_some hp')
+      simpa using this
+    · simp
+  rw [hsl] at hfit ⊢
+  have hfl : firstLine .response (Pistache.bytes "HTTP/1.1 " ++ natToDec code ++ [32] ++ Emit.reason code ++ Emit.crlf ++
+      (((lines ++ [teLine]).map fun (l : Bytes × Bytes × List Eff) => lineBytes l.1 l.2.1).flatten ++ Emit.crlf ++ ((chunks.map Emit.chunk).flatten ++ Emit.lastChunk)))
+      = ([Eff.setCode code], .ok () (((lines ++ [teLine]).map fun (l : Bytes × Bytes × List Eff) => lineBytes l.1 l.2.1).flatten ++ Emit.crlf ++ ((chunks.map Emit.chunk).flatten ++ Emit.lastChunk))) := by
+    have : firstLine .response = responseLine := by unfold firstLine; simp
+    rw [this]
+    exact responseLine_write code (Emit.reason code) _ hc hr
+  obtain ⟨p', h1, h2⟩ := parse_general_body .response _ [Eff.setCode code] (lines ++ [teLine]) _ chunks.flatten max hfl hall hbody
+    (by simpa [List.append_assoc] using hfit)
   refine ⟨p', by simpa [List.append_assoc] using h1, ?_, ?_⟩
   · rw [h2, apps_fields]
     simp only [List.foldl_append, List.foldl_cons, List.foldl_nil, fCode]
